@@ -404,9 +404,25 @@ from .facts import UNIT_RESOLVERS
 UNIT_RESOLVERS.append(_summary_units)
 
 
-def log_counter_invariants():
+def log_counter_stepvar(k):
+    """The variable the log counter is stepped in: the first parameter, or -- when that is never assigned -- the working copy
+    `level = uintN(counter)` the function makes of it."""
+    p0 = k.params[0]
+    if any(isinstance(n, ast.Name) and n.id == p0 and isinstance(n.ctx, ast.Store) for n in walk_no_nested(k.node)):
+        return p0
+    for n in walk_no_nested(k.node):
+        if isinstance(n, ast.Assign) and len(n.targets) == 1 and isinstance(n.targets[0], ast.Name):
+            v = n.value
+            while isinstance(v, ast.Call) and len(v.args) == 1 and not v.keywords:
+                v = v.args[0]
+            if isinstance(v, ast.Name) and v.id == p0:
+                return n.targets[0].id
+    return p0
+
+
+def log_counter_invariants(var="counter", p0="counter"):
     def upper(w, entry_env, env):
-        c0, m, c = entry_env.get("counter"), entry_env.get("uint_maxval"), env.get("counter")
+        c0, m, c = entry_env.get(p0), entry_env.get("uint_maxval"), env.get(var)
         if not all(isinstance(x, Num) for x in (c0, m, c)):
             return None
         box = FactBox([])
@@ -414,17 +430,26 @@ def log_counter_invariants():
         return c.lin - mx
 
     def lower(w, entry_env, env):
-        c0, c = entry_env.get("counter"), env.get("counter")
+        # relative to the value at loop entry (which is the parameter itself unless a jump precedes the loop)
+        c0, c = entry_env.get(var), env.get(var)
         if not all(isinstance(x, Num) for x in (c0, c)):
             return None
         return c0.lin - c.lin
-    return [("counter <= max(counter_in, uint_maxval)", upper), ("counter >= counter_in", lower)]
+
+    def reached_log_range(w, entry_env, env):
+        # optional helper (kept only where it holds at loop entry and is inductive): once at or above num_reserved, always
+        nr, c = entry_env.get("num_reserved"), env.get(var)
+        if not all(isinstance(x, Num) for x in (nr, c)):
+            return None
+        return nr.lin - c.lin
+    return [("counter <= max(counter_in, uint_maxval)", upper), ("counter >= counter_in", lower),
+            ("opt: counter >= num_reserved", reached_log_range)]
 
 
 def walk_kernel(F, k):
     kw = {"summaries": SUMMARIES}
     if k.name == "_log_counter":
-        kw["loop_invariants"] = log_counter_invariants()
+        kw["loop_invariants"] = log_counter_invariants(log_counter_stepvar(k), k.params[0])
     if k.module.short == "heavyhitters":
         kw["cell_axioms"] = keylen_axioms(F, k)
     return F.walk(k, **kw)
@@ -1223,17 +1248,8 @@ def rule_logstep(ctx):
     F = facts_of(ctx)
     k = ctx.model.func("countmin", "_log_counter")
     w = walk_kernel(F, k)
-    for line, label, kept in w.inv_report:
-        ctx.ob("logstep", k, line, "loop invariant: %s" % label, "candidate invariant is inductive (Houdini)", kept,
-               "" if kept else "invariant not preserved by the loop body: the summary used by callers does not hold")
     lends = [e for e in w.events if e.kind == "loopend"]
     lp = lends[0].loop if lends else None
-    okk = lp is not None and lp.kind == "range" and lp.start == Lin.const(0) and lp.step == Lin.const(1) \
-        and lp.stop == Lin.term(("param", "value"))
-    if not okk and lp is not None and lp.kind != "range":
-        okk = None          # a while loop with its own remaining-work counter: not the shape this rule reads
-    ctx.ob("logstep", k, lp.node if lp else k.node, "for _ in range(value)", "at most `value` steps: one loop over range(value)",
-           okk if okk is None else bool(okk), "" if okk else "the step loop is not `for _ in range(value)`" + (": shape not understood" if okk is None else ""))
     cname = k.params[0]
     alias_init = None
     if not any(e.kind == "assign" and e.name == cname for e in w.events):
@@ -1247,8 +1263,10 @@ def rule_logstep(ctx):
                     cname = n.targets[0].id
                     alias_init = n
                     break
-    assigns = [e for e in w.events if e.kind == "assign" and e.name == cname]
-    nr = Lin.term(("param", "num_reserved"))
+    c0_ = Lin.term(("param", k.params[0]))
+    v_ = Lin.term(("param", "value"))
+    nr_ = Lin.term(("param", "num_reserved"))
+    mv_ = Lin.term(("param", "uint_maxval"))
     loopn = lp.node if lp else None
     outside = []
     for n in walk_no_nested(k.node):
@@ -1258,7 +1276,58 @@ def rule_logstep(ctx):
                 for e_ in (t.elts if isinstance(t, (ast.Tuple, ast.List)) else [t]):
                     if isinstance(e_, ast.Name) and e_.id == cname and not (loopn is not None and is_inside(k.node, n, loopn)):
                         outside.append(n)
-    batched = bool(outside)
+    plain = lp is not None and lp.kind == "range" and lp.start == Lin.const(0) and lp.step == Lin.const(1) \
+        and lp.stop == Lin.term(("param", "value"))
+    okk, why_steps = bool(plain), "the step loop is not `for _ in range(value)`"
+    two_phase = None
+    if lp is not None and lp.kind == "range" and outside:
+        # two-phase spelling: the deterministic steps below num_reserved are taken in one jump of n, the loop runs over what is left.
+        # At every entry of the loop: 0 <= n = cur - counter, n + trips <= value, and the jump ended inside the exact range and at
+        # or below the ceiling (cur == counter, or cur <= num_reserved and cur <= uint_maxval)
+        starts = [e for e in w.events if e.kind == "loopstart" and e.loop.node is lp.node]
+        res_tp = []
+        for ls in starts:
+            cur = ls.env.get(cname)
+            l_ = ls.loop
+            if not (isinstance(cur, Num) and l_.kind == "range" and l_.start == Lin.const(0) and l_.step == Lin.const(1)):
+                res_tp.append((None, "loop entry not understood", fact_strs(ls)))
+                continue
+            n_ = cur.lin - c0_
+            p_nonneg = prove_le0_cases(w.P, -n_, ls)
+            p_total = prove_le0_cases(w.P, n_ + l_.stop - v_, ls)
+            p_same = w.P.prove_eq0(n_, ls.facts)
+            p_exact = p_same or (prove_le0_cases(w.P, cur.lin - nr_, ls) and prove_le0_cases(w.P, cur.lin - mv_, ls))
+            # the trip count is what is left of the budget, not a wrapped difference: value - n >= 0
+            p_left = prove_le0_cases(w.P, -l_.stop, ls)
+            good = bool(p_nonneg and p_total and p_exact and p_left)
+            # refuted outright on this path: jump + trips provably exceed `value`
+            over = (not p_total) and bool(w.P.prove_le0(-(n_ + l_.stop - v_) + 1, ls.facts))
+            res_tp.append(((True if good else False if over else None), "jump of n deterministic steps, then at most value - n trips" if good else
+                           ("the jump of %s steps and the loop's %s trips together exceed `value`: more unit steps are taken than were asked for"
+                            % (show_lin(n_), show_lin(l_.stop)) if over else
+                            "before the loop the counter is %s and the loop makes %s trips: not shown to be at most `value` unit steps inside the exact range"
+                            % (show_lin(cur.lin), show_lin(l_.stop))), fact_strs(ls)))
+        if res_tp and all(r[0] is True for r in res_tp):
+            two_phase, okk = True, True
+        elif res_tp and any(r[0] is False for r in res_tp):
+            okk, why_steps = False, next(r[1] for r in res_tp if r[0] is False)
+        elif res_tp:
+            okk, why_steps = None, next(r[1] for r in res_tp if r[0] is not True)
+    elif not plain and lp is not None and lp.kind != "range":
+        okk, why_steps = None, "the step loop is a while loop with its own remaining-work counter: shape not understood"
+    ctx.ob("logstep", k, lp.node if lp else k.node, "for _ in range(value)", "at most `value` unit steps in all (one loop over range(value), or a "
+           "deterministic jump inside the exact range followed by a loop over what is left)", okk, "" if okk else why_steps)
+    assigns = [e for e in w.events if e.kind == "assign" and e.name == cname]
+    nr = Lin.term(("param", "num_reserved"))
+    batched = bool(outside) and not two_phase
+    for line, label, kept in w.inv_report:
+        if label.startswith("opt:"):
+            continue
+        # (with a working copy / a jump before the loop the entry state may be beyond what the prover can relate to the summary:
+        # a candidate that could not be established is then unknown, and the return-range obligation below still has to hold)
+        st_ = True if kept else (None if (alias_init is not None or outside) else False)
+        ctx.ob("logstep", k, line, "loop invariant: %s" % label, "candidate invariant is inductive (Houdini)", st_,
+               "" if kept else "invariant not preserved by the loop body: the summary used by callers does not hold")
     for g in group_by_node(assigns):
         res1, res2 = [], []
         for e in g:
@@ -1290,9 +1359,10 @@ def rule_logstep(ctx):
         agg(ctx, "logstep", k, g[0].node, src(k, g[0].node), "deterministic below num_reserved, probabilistic at or above it", res2)
     # the counter variable is changed only inside the loop, and every return hands back that variable
     ctx.ob("logstep", k, outside[0] if outside else k.node, "assignments to `%s` outside the step loop" % cname,
-           "the counter changes only through the per-unit steps of the loop", True if not outside else None,
-           "" if not outside else "`%s` changes the counter outside the per-unit loop: shape not understood" % unparse(outside[0], 60))
-    c0 = Lin.term(("param", cname))
+           "the counter changes only through the per-unit steps of the loop (or a jump shown above to equal that many deterministic steps)",
+           True if (not outside or two_phase) else None,
+           "" if (not outside or two_phase) else "`%s` changes the counter outside the per-unit loop: shape not understood" % unparse(outside[0], 60))
+    c0 = Lin.term(("param", k.params[0]))
     vv = Lin.term(("param", "value"))
     nrl = Lin.term(("param", "num_reserved"))
     res_in, res_pre = [], []
@@ -1330,6 +1400,13 @@ def rule_logstep(ctx):
     if res_pre:
         pre_nodes = [e for e in rl if not e.loops and not any(x.kind == "loopstart" for x in on_path(w.events, e))]
         agg(ctx, "logstep", k, pre_nodes[0].node, "return before the step loop", "a shortcut around the per-unit steps must be value-exact", res_pre)
+    # unsigned differences computed by the step kernel (room left in the exact range, budget left after a jump) do not wrap
+    for g in group_by_node([e for e in w.events if e.kind == "sub"]):
+        res = []
+        for e in g:
+            p = prove_le0_cases(w.P, e.b.lin - e.a.lin, e)
+            res.append((bool(p), str(p) if p else "cannot prove %s >= %s" % (show_lin(e.a.lin), show_lin(e.b.lin)), fact_strs(e)))
+        agg(ctx, "logstep", k, g[0].node, src(k, g[0].node), "unsigned subtraction does not go below zero (a wrapped budget or room would run the counter away)", res)
     # returns satisfy the declared summary and fit the return type
     rets = [e for e in w.events if e.kind == "ret" and not e.implicit]
     res = []
